@@ -16,7 +16,7 @@ CFG = {
              "both zeros, subnormals, huge) trips none of its five debug_assert!s nor an i8 overflow, has r/g/b "
              "mantissas <= 511 and exponent <= 31 and returns exactly the 9+9+9+5 packing (first pass <= 512, second "
              "pass <= 256, exponent 31 <= 511 so exp never becomes 32; multiplication by two_powi proved exact in the "
-             "normal range); n1/n2/n4/n5/n6/n10::from_f32 and s8::from_uf32 stay <= MAX for every pattern and "
+             "normal range; the zero f32::max returns on a -0.0/+0.0 tie proved irrelevant); n1/n2/n4/n5/n6/n10::from_f32 and s8::from_uf32 stay <= MAX for every pattern and "
              "B5G6R5, B5G5R5A1, B4G4R4A4, A4B4G4R4, R10G10B10A2, R8G8B8A8_SNORM encode every pixel to exactly the "
              "field packing; (4) the only data-dependent loop of the block encoders (bcn_util::refine_endpoints) runs at "
              "most max_iter <= 10 times at every quality, whatever the float comparison does; (5) empty images give "
